@@ -3,6 +3,7 @@ The two trait impls of StructuredShortMessage (structured_short_message.rs) as T
 regenerated on every run): decoding from bytes and the three byte getters are the functions of the hand-written model.
 -/
 import Midi.Gen.StructuredImpl
+import Midi.Gen.RawImpl
 import Midi.Proofs.GenTie
 set_option linter.unusedSimpArgs false
 set_option linter.unusedVariables false
@@ -36,4 +37,12 @@ theorem data_byte_2 (m : SMsg) : StructuredShortMessage.data_byte_2 m = .ok m.da
 theorem to_structured (m : SMsg) : StructuredShortMessage.to_structured m = .ok m := rfl
 
 end ST
+
+namespace RAW
+open Midi.Gen.RawImpl
+theorem from_bytes_unchecked (b : Bytes) : RawShortMessage.from_bytes_unchecked b = rawFactory.ofBytesUnchecked b := rfl
+theorem getters (b : Bytes) :
+    RawShortMessage.status_byte b = .ok (rawImpl.status b) ∧ RawShortMessage.data_byte_1 b = .ok (rawImpl.d1 b) ∧
+    RawShortMessage.data_byte_2 b = .ok (rawImpl.d2 b) := ⟨rfl, rfl, rfl⟩
+end RAW
 end Midi.GenTie
